@@ -360,6 +360,15 @@ def run(repo, rep):
     rep.check(not [p_ for p_ in probs if '_loop' in p_ or '_establish' in p_], 'C14.J1', 'asceprovider:AssociationAcceptor.handle:no-service-after-refusal',
               hf.loc(), 'services run only after the association was accepted', '; '.join(p_ for p_ in probs if '_loop' in p_ or '_establish' in p_))
 
+    # ---------------------------------------------------------------- J7
+    from ..api_pitfalls import flag_after_reset_problems
+    p7_, n7_ = flag_after_reset_problems(repo)
+    rep.rule('C14.J7', 'how an association ended is decided on what it was: ``association_established`` is not tested after a call that '
+             'clears it on the same object (kill(), and abort() / release() which end in it) -- such a test is always false, and what '
+             'hangs on it (re-raise the body\'s exception as it is, or report a failed establishment) always goes one way', 1)
+    rep.check(not p7_, 'C14.J7', 'package:association_established:read-after-clear', '',
+              '%d function(s) examined, no read of the flag after it was cleared' % n7_, '; '.join(p7_))
+
     # ---------------------------------------------------------------- J3
     ra = repo.cls('applicationentity', 'AEBase').find_method('request_association')
     rep.analysed(ra)
